@@ -9,8 +9,8 @@ OS(pat) == [pat |-> pat, kids |-> <<>>, glob |-> FALSE, orev |-> FALSE, scope |-
 OrdCatalog == <<
   \* flat: c first, then a, b; removal of m pinned between them; PrefixX unmentioned
   << << O(<<T("c"), TT>>, <<>>), OR(<<T(Prefix), T("m"), TT>>), O(<<T(PrefixX), ST>>, <<>>), O(<<T("a"), ST>>, <<>>), O(<<T("b")>>, <<>>) >>,
-     \* b first, but only when a patch is ordered: for order_config `b` is a row no rule mentions
-     << OS(<<T("b")>>), O(<<T("c"), TT>>, <<>>), O(<<T("a"), ST>>, <<>>) >> >>,
+     \* b between c and a, but only when a patch is ordered: for order_config `b` is a row no rule mentions
+     << O(<<T("c"), TT>>, <<>>), OS(<<T("b")>>), O(<<T("a"), ST>>, <<>>) >> >>,
   \* nest: blk before a; inside: y, sub{z}, x
   << << O(<<T("blk"), ST>>, << O(<<T("y")>>, <<>>), O(<<T("sub"), ST>>, << O(<<T("z"), ST>>, <<>>) >>), O(<<T("x"), ST>>, <<>>) >>), O(<<T("a"), ST>>, <<>>) >> >>,
   \* logics: p, s, i, b
